@@ -122,7 +122,7 @@ def run_case(case):
             chs = e["changes"] if e["op"] == "group" else [e]
             try:
                 for c in chs:
-                    edits.apply_live({"op": "set", "obj": c["obj"], "attr": c["attr"], "value": spec_before["objects"][c["obj"]]["params"][c["attr"]]}, h.objs)
+                    edits.apply_live({"op": "set", "obj": c["obj"], "attr": c["attr"], "value": spec_before["objects"][c["obj"]]["params"].get(c["attr"], ["none"])}, h.objs)
             except Exception as e2:
                 V.append({"kind": "re-assigning the previous value after a failed edit raised", "error": f"{type(e2).__name__}: {str(e2)[:160]}", **ctx}); break
             C["state_restored_checks"] += 1
